@@ -83,4 +83,24 @@ func Run(r *ev.Run) {
 			drive.Against(r, j, us.List[i], insts, drive.Opt{Draft: ref.D2020})
 		})
 	}
+	// single-document schemas with $dynamicRef (shared with C06): the two-scope roots, in which one
+	// call reaches the same $dynamicRef through two dynamic scopes, and the extra families
+	var dyn []*gen.Universe
+	gen.DynTwoScope(func(u *gen.Universe) {
+		if len(u.Docs) == 0 {
+			dyn = append(dyn, u)
+		}
+	})
+	gen.DynExtra(func(u *gen.Universe) {
+		if len(u.Docs) == 0 {
+			dyn = append(dyn, u)
+		}
+	})
+	r.Set("dynamic_reference_schemas", len(dyn))
+	par.For(len(dyn), r.Expired, func(i int, j par.Journal) {
+		if !thorough && i%3 != 0 {
+			return
+		}
+		drive.Against(r, j, dyn[i].Root, drive.MkPool(gen.Vals(dyn[i].Insts...)), drive.Opt{Draft: ref.D2020, BaseURI: dyn[i].Base, Prefix: "dyn "})
+	})
 }
